@@ -75,7 +75,10 @@ def run_driver(script, jobs, out_dir, py=None, env=None, timeout=3600, name="drv
         while pending and len(running) < NCPU:
             k, job = pending.pop(0)
             errf = open(os.path.join(out_dir, "%s.%d.err" % (name, k)), "w+")
-            p = subprocess.Popen([py, "-B", os.path.join(DRIVERS, script), json.dumps(job)],
+            jobf = os.path.join(out_dir, "%s.%d.job" % (name, k))
+            with open(jobf, "w") as jf:
+                json.dump(job, jf)
+            p = subprocess.Popen([py, "-B", os.path.join(DRIVERS, script), jobf],
                                  env=repo_env(env), stdout=subprocess.DEVNULL, stderr=errf,
                                  cwd=out_dir)
             running.append((k, job, p, errf))
@@ -92,6 +95,11 @@ def run_driver(script, jobs, out_dir, py=None, env=None, timeout=3600, name="drv
                 errf.seek(0)
                 tail = errf.read()[-2000:]
                 errf.close()
+                for suffix in ("err", "job"):
+                    try:
+                        os.remove(os.path.join(out_dir, "%s.%d.%s" % (name, k, suffix)))
+                    except OSError:
+                        pass
                 results.append((k, job, rc, tail))
         running = still
     results.sort(key=lambda r: r[0])
